@@ -1,6 +1,6 @@
 (* Correspondence cases for C18: what the implementation returned, compared with the model. *)
 From NG Require Export Common.Tactics Common.HarnessLib Codec.Bigint.
-From NG Require Import Common.Sha256 Codec.Base58 Codec.Fixed Codec.UintStr Codec.Merkle Codec.Multisig Codec.Nep2.
+From NG Require Import Common.Sha256 Codec.Base58 Codec.Fixed Codec.UintStr Codec.Merkle Codec.Multisig Codec.Nep2 Codec.EmitInt.
 Open Scope Z_scope.
 
 Definition zlist_eqb := list_eqb Z.eqb.
@@ -33,7 +33,8 @@ Inductive case :=
 | CMerkle (hs : list (list Z)) (calc : list Z) (tree : option (list Z)) (* CalcMerkleRoot, NewMerkleTree(..).Root() *)
 | CMultisig (keys sigs : list Z) (impl : bool)
 | CNep2Frame (addr body : list Z) (impl : list Z)                (* NEP2Encrypt returned impl for a key whose address text is addr; body = the 32 encrypted bytes (independent scrypt + AES) *)
-| CNep2Unframe (s : list Z) (impl : bool).                       (* NEP2Decrypt got past CheckDecode and validateNEP2Format on s *)                  (* CHECKMULTISIG: key ids, signer id of each signature (or -1), every run returned impl *)
+| CNep2Unframe (s : list Z) (impl : bool)
+| CEmitInt (n : Z) (impl : option (list Z)).                     (* emit.BigInt / emit.Int: the script written, None if refused *)                       (* NEP2Decrypt got past CheckDecode and validateNEP2Format on s *)                  (* CHECKMULTISIG: key ids, signer id of each signature (or -1), every run returned impl *)
 
 Definition check_case (c : case) : N :=
   match c with
@@ -99,4 +100,12 @@ Definition check_case (c : case) : N :=
       code_of m (option_eqb (fun a b => zlist_eqb (fst a) (fst b) && zlist_eqb (snd a) (snd b)) (nep2_unframe checksumZ impl) (Some (ah, body)))
   | CNep2Unframe s impl =>
       let m := Bool.eqb (match nep2_unframe checksumZ s with Some _ => true | None => false end) impl in code_of m m
+  | CEmitInt n impl =>
+      (* mechanism: the emitter model (small forms, width choice, sign extension); specification: inside the VM range
+         the script is ONE instruction that, by the VM model's decoder and push semantics, pushes n; outside, refused *)
+      let m := ozl_eqb (emit_bigint n) impl in
+      code_of m (match impl with
+                 | Some s => in_int256 n && oz_eqb (decode_pushint s) (Some n)
+                 | None => negb (in_int256 n)
+                 end)
   end.
